@@ -4,6 +4,71 @@ import json, os, sys
 HERE = os.path.dirname(os.path.dirname(os.path.abspath(__file__)))
 
 CHECKS = {
+ "C06": dict(
+    category="model_checking",
+    text=("ReadSession.tla / WriteSession.tla model the three threads of a File session at the grain of the "
+          "implementation's critical sections with explicit condition-variable wait sets. TLC checks DeadlockFree "
+          "(invariant) and Termination (weak fairness) for every interleaving of each small configuration (object vs "
+          "container vs buffer size in every order, early close with full pipeline, spurious wake-ups). Every edge of "
+          "those graphs is then executed on the real File under the controlled scheduler (M1: thread status sets and "
+          "monitor state compared after each step), and real-scale sessions (128 KiB buffer, capacity 10, objects up to "
+          "4x(buffer+container)) run under seeded random schedules with exact deadlock/livelock verdicts."),
+    design_ref="DESIGN.md §6 C06, §3.2, §4",
+    note=("Exhaustive only for the small configurations; real-scale runs are sampled schedules. Weak fairness assumed. "
+          "Trusted: TLC, scheduler shim, projection of private members."),
+    technique="TLA+ session specs + TLC (safety+liveness) + M1 edge replay under a controlled scheduler + seeded schedules"),
+ "C07": dict(
+    category="model_checking",
+    text=("Same session specs: DeliveredIsPrefix, NullIsLast, EofOnlyAfterLast, DoneDeliveredAll, PipelineOrder (read) "
+          "and FileOutUnique = Chop(total, C) (write) are invariants checked by TLC over all interleavings; M1 edge "
+          "replay compares delivered ids, queue contents, container sequence and header of the real session with the "
+          "spec after every step; real-scale sessions under seeded schedules must deliver exactly the expected ids / "
+          "produce a single output hash."),
+    design_ref="DESIGN.md §6 C07",
+    note="As C06. Object identity is the time stamp set by the harness.",
+    technique="TLA+ session specs + TLC invariants + M1 edge replay + seeded schedules"),
+ "C11": dict(
+    category="model_checking",
+    text=("Ownership ghost in the session specs (NoStaleAccess, Accounted, AllDeleted) checked by TLC for all "
+          "interleavings including an extra scheduling point after every notifying queue section; every edge replayed "
+          "on the real File in an ASan+UBSan build where the application deletes each object as soon as read() "
+          "returns, so a stale access is a deterministic use-after-free; anti-vacuity probe (the defective order "
+          "violates NoStaleAccess); ThreadSanitizer sensor on native sessions with seeded pacing."),
+    design_ref="DESIGN.md §6 C11, §8",
+    note=("Memory-level races outside the modelled hand-over are only observed by TSan on sampled native schedules; "
+          "the spec contributes the schedule enumeration and the ownership argument."),
+    technique="TLA+ ownership invariants + TLC + ASan edge replay with post-hand-over scheduling points + TSan sensor"),
+ "C12": dict(
+    category="model_checking",
+    text=("HeldBounded (bytes in held log containers below a bound that does not depend on the number of containers) "
+          "and QueueBounded are invariants of both session specs, checked by TLC for all interleavings of small "
+          "configurations with many containers, objects spanning containers, stalled consumers, spurious wake-ups; M1 "
+          "edge replay compares the container list of the real UncompressedFile after every step; real-scale sessions "
+          "of N = 4..256 containers under application-starving seeded schedules: peak held bytes and queue length "
+          "measured after every step, compared with the bound and across N."),
+    design_ref="DESIGN.md §6 C12",
+    note="Held data = containers in UncompressedFile::m_data + queue length; other heap is not measured.",
+    technique="TLA+ invariants + TLC + M1 edge replay + measured peaks under seeded starving schedules"),
+ "C13": dict(
+    category="model_checking",
+    text=("Lifecycle.tla: all call histories (bounded length) over open(missing/unwritable/in/out/again), read, write, "
+          "close, destroy with ownership and thread ghosts; TLC checks NoThreadLeft, ReleasedAtEnd, flag rules; every "
+          "history is replayed on the real File (ASan/LSan): is_open/good/eof, delivered ids, OS threads, leak check "
+          "after destruction. Abandoned/early-closed sessions: Accounted/AllDeleted on the session specs for all "
+          "interleavings, edge-replayed under ASan."),
+    design_ref="DESIGN.md §6 C13",
+    note="good()/eof() compared only while a read session is open; leaks by LeakSanitizer reachability.",
+    technique="TLA+ lifecycle spec + TLC + history replay (M3) under ASan/LSan + session ownership invariants"),
+ "C15": dict(
+    category="model_checking",
+    text=("UncompressedFileSeq.tla (one operator per method of UncompressedFile, UFOps) explored exhaustively by TLC "
+          "for two alphabets (geometry: chunked writes, whole containers, nextLogContainer, drop, container size "
+          "changes; flags: declared end, abort, buffer size) with geometry invariants and read/flag action properties; "
+          "every edge executed on the real object comparing all members, observers and the bytes returned."),
+    design_ref="DESIGN.md §6 C15",
+    note=("Bounded: positions <= 4..6, container sizes 1..3. write(container) only while no container is open at the "
+          "put position (Protocol)."),
+    technique="TLA+ sequential spec + TLC exhaustive + M1 edge replay on the real object"),
  "C16": dict(
     category="model_checking",
     text=("TLC checks FIFO/exactly-once, capacity, exact-EOF and abort on the specs ObjectQueueSeq (all non-blocking "
